@@ -4,3 +4,4 @@ set -e
 cd "$(dirname "$0")"
 export CARGO_NET_OFFLINE=true
 (cd harness && cargo build --release --offline)
+(cd sched && cargo build --release --offline)
